@@ -39,6 +39,8 @@ CATALOGUE = {
     "high_vote_keeps_older_same_number": [("b", 0, 3, "CertUnique")],
     # liveness weakening: the target is the stuck-candidate predicate, the verdict comes from the good-period continuation (C06)
     "backup_before_justification": [("b", 1, 2, "NoStuckCandidate")],
+    # a second schedule for one weakening: key = weaken@tag
+    "send_before_persist@agreement": [("a", 1, 2, "Agreement")],
 }
 
 
@@ -105,14 +107,15 @@ def generate(weaken, variant, maxcrash, maxview, cap=180, invs=None):
 def regen():
     os.makedirs(SCEN_DIR, exist_ok=True)
     found = 0
-    for weaken, tries in CATALOGUE.items():
+    for key, tries in CATALOGUE.items():
+        weaken = key.split("@")[0]
         got = None
         for t in tries:
             (variant, maxcrash, maxview) = t[:3]
             got = generate(weaken, variant, maxcrash, maxview, cap=600 if len(t) > 3 else 180, invs=t[3] if len(t) > 3 else None)
             if got:
                 break
-        path = os.path.join(SCEN_DIR, f"attack_{weaken}.json")
+        path = os.path.join(SCEN_DIR, f"attack_{key.replace('@', '_')}.json")
         if got:
             with open(path, "w") as f:
                 json.dump(got, f, indent=1)
